@@ -8,7 +8,7 @@ Everything is rebuilt from ${VERIF_REPO:-/repo}'s working tree on every run.
 import fcntl, hashlib, json, os, re, shutil, subprocess, sys, time, signal
 
 VERIF = os.path.dirname(os.path.dirname(os.path.abspath(__file__)))
-LEAN = os.path.join(VERIF, "lean")
+LEAN = os.environ.get("VERIF_LEAN", os.path.join(VERIF, "lean"))
 ALLOWED_AXIOMS = {"propext", "Classical.choice", "Quot.sound"}
 BANNED = re.compile(r"\bsorry\b|\badmit\b|^\s*axiom\s|native_decide|bv_decide|implemented_by|\bunsafe\s|maxHeartbeats\s+0|\bextern\b")
 TRUSTED_BASE = [
